@@ -360,7 +360,21 @@ def run_recount(case):
     ids = sorted(set(v for t in trajs for v in t))
     perm = dict(zip(ids, rng.permutation(ids).tolist()))
     new = [[perm[v] for v in t[::-1]] for t in trajs]
-    if case["how"] == "ragged":
+    if case["how"] == "ragged" and case["refill_seed"] % 2:
+        # in-place relabelling through masks (lumping states: a[a == s] = t), one source state at a time via a
+        # temporary offset so that the permutation is applied exactly once; time order kept
+        new = [[perm[v] for v in t] for t in trajs]
+        top = int(np.iinfo(case["dtype"]).max)
+        off = max(ids) + 1
+        if off + max(ids) <= top:
+            for s_ in ids:
+                x[x == s_] = off + s_
+            for s_ in ids:
+                x[x == off + s_] = perm[s_]
+        else:
+            for i, t in enumerate(new):
+                x[i] = np.array(t, dtype=case["dtype"])
+    elif case["how"] == "ragged":
         for i, t in enumerate(new):
             x[i] = np.array(t, dtype=case["dtype"])
     else:
